@@ -131,7 +131,7 @@ def rand_body_ref(rng, names):
     if r < 0.55:
         return f"#/components/requestBodies/{n}"
     forms = [f"#/components/schemas/{n}", f"other.yaml#/components/requestBodies/{n}", f"http://evil/x#/{n}", n, f"#/components/requestBodies/{n}/", f"//h#/components/requestBodies/{n}",
-             f"#/components/requestBodies/x/{n}", f"#/components/requestBodies/%{ord(n[0]):02X}", "", "#", f"#/{n}#/{n}"]
+             f"#/components/requestBodies/x/{n}", "#/components/requestBodies/" + "".join("%%%02X" % ord(c) for c in n), "", "#", f"#/{n}#/{n}"]
     return rng.choice(forms)
 
 
@@ -210,11 +210,11 @@ def rand_param(rng, with_schema=None):
     p = {"name": rng.choice(PNAMES), "in": rng.choice(LOCS)}
     if rng.random() < 0.6:
         p["required"] = rng.random() < 0.7
-    if p["in"] == "path" and rng.random() < 0.8:
+    if p["in"] == "path" and rng.random() < 0.93:
         p["required"] = True
-    has_schema = with_schema if with_schema is not None else rng.random() < 0.9
+    has_schema = with_schema if with_schema is not None else rng.random() < 0.93
     if has_schema:
-        p["_sid"] = rng.choice([1, 1, 2, 2, 3, 4, 5, 6, 7, 8, 9])
+        p["_sid"] = rng.choice([8, 9, 5]) if rng.random() < 0.07 else rng.choice([1, 1, 2, 2, 3, 4, 6, 7] + ([5, 5] if p["in"] == "query" else []))
         p["schema"] = PSCHEMAS[p["_sid"]]
     else:
         p["content"] = {"application/json": {"schema": {"type": "string"}}}
@@ -288,7 +288,7 @@ def stage_b_params(run, tier):
         comps = {}
         for k in keys:
             r = rng.random()
-            comps[k] = ("ref", "#/components/parameters/" + rng.choice(keys)) if r < 0.1 else ("param", rand_param(rng))
+            comps[k] = ("ref", "#/components/parameters/" + rng.choice(keys)) if r < 0.05 else ("param", rand_param(rng))
         oai_comps = {k: (oai.Reference(ref=v[1]) if v[0] == "ref" else oai.Parameter.model_validate({x: y for x, y in v[1].items() if x != "_sid"})) for k, v in comps.items()}
         ccomps = "[" + "; ".join(f"({cstr(k)}, " + (f"CRef {cstr(v[1])}" if v[0] == "ref" else f"CParam {cparam(v[1])}") + ")" for k, v in comps.items()) + "]"
         params = build_parameters(components=oai_comps, parameters=Parameters(), config=config)
@@ -306,7 +306,7 @@ def stage_b_params(run, tier):
             if r < 0.45:
                 k = rng.choice(keys)
                 rr = rng.random()
-                ref = f"#/components/parameters/{k}" if rr < 0.8 else rng.choice([t for _, t in bad_ref_forms("parameters", k) if "[" not in t or rng.random() < 0.3])
+                ref = f"#/components/parameters/{k}" if rr < 0.9 else rng.choice([t for _, t in bad_ref_forms("parameters", k) if "[" not in t or rng.random() < 0.3])
                 return ("ref", ref)
             return ("param", rand_param(rng))
         lists = []
@@ -408,3 +408,504 @@ def stage_b_responses(run, tier):
         meta.append({"fn": "response_from_data", "components": comps, "data": data, "impl": obs})
         run.note_case({"components": comps, "data": data}, nontrivial=data[0] == "ref", kind="response-ref")
     return terms, meta
+
+
+# ====================================================================================================================
+# stage C (1): inline <-> reference rewriting of parameters / request bodies / responses
+# ====================================================================================================================
+SREF = "#/components/schemas/"
+BASE_SCHEMAS = {
+    "Pet": {"type": "object", "required": ["name"], "properties": {"name": {"type": "string"}, "age": {"type": "integer"}, "kind": {"$ref": SREF + "Kind"}, "born": {"type": "string", "format": "date"}}},
+    "Kind": {"type": "string", "enum": ["cat", "dog"]},
+    "Tag": {"type": "object", "properties": {"label": {"type": "string"}, "pets": {"type": "array", "items": {"$ref": SREF + "Pet"}}}},
+    "Err": {"type": "object", "properties": {"code": {"type": "integer"}, "msg": {"type": "string"}}},
+}
+OP_PARAM_SCHEMAS = [{"type": "integer"}, {"type": "string"}, {"type": "boolean"}, {"type": "number"}, {"type": "string", "format": "date"}, {"type": "string", "format": "uuid"},
+                    {"$ref": SREF + "Kind"}, {"type": "string", "enum": ["x", "y z"]}, {"type": "integer", "default": 3}, {"type": "string", "default": "dflt", "description": "a described schema"}]
+QUERY_ONLY_SCHEMAS = [{"type": "array", "items": {"type": "string"}}, {"type": "array", "items": {"$ref": SREF + "Kind"}}, {"$ref": SREF + "Pet"},
+                      {"type": ["string", "null"]}, {"anyOf": [{"type": "integer"}, {"type": "string", "format": "date"}]}]
+
+
+def gen_op_param(rng, loc, name, hostile=False):
+    p = {"name": name, "in": loc}
+    if loc == "path":
+        p["required"] = True
+    elif rng.random() < 0.6:
+        p["required"] = rng.random() < 0.5
+    pool = OP_PARAM_SCHEMAS + (QUERY_ONLY_SCHEMAS if loc == "query" else [])
+    if loc == "path":
+        pool = OP_PARAM_SCHEMAS[:8]
+    p["schema"] = copy.deepcopy(rng.choice(pool))
+    for k, v in (("description", "param %s in %s" % (name, loc)), ("deprecated", True), ("style", "form" if loc in ("query", "cookie") else "simple"), ("explode", rng.random() < 0.5),
+                 ("example", "e"), ("allowEmptyValue", True)):
+        if rng.random() < 0.3:
+            p[k] = v
+    if hostile and rng.random() < 0.5:
+        del p["schema"]
+        p["content"] = {"application/json": {"schema": {"type": "string"}}}
+    return p
+
+
+def gen_body(rng):
+    r = rng.random()
+    json_schemas = [{"$ref": SREF + "Pet"}, {"type": "array", "items": {"$ref": SREF + "Pet"}}, {"type": "object", "properties": {"a": {"type": "string"}, "k": {"$ref": SREF + "Kind"}}},
+                    {"type": "string"}, {"type": "object", "additionalProperties": {"type": "integer"}}]
+    form = {"type": "object", "properties": {"f1": {"type": "string"}, "f2": {"type": "integer"}}, "required": ["f1"]}
+    multi = {"type": "object", "properties": {"file": {"type": "string", "format": "binary"}, "note": {"type": "string"}, "tag": {"$ref": SREF + "Tag"}}, "required": ["file"]}
+    content = {}
+    kinds = rng.sample(["json", "form", "multipart", "octet", "vjson", "xml"], rng.choice([1, 1, 1, 2, 3]))
+    for k in kinds:
+        if k == "json":
+            content["application/json"] = {"schema": copy.deepcopy(rng.choice(json_schemas))}
+        elif k == "vjson":
+            content["application/vnd.api+json; charset=utf-8"] = {"schema": {"$ref": SREF + "Tag"}}
+        elif k == "form":
+            content["application/x-www-form-urlencoded"] = {"schema": copy.deepcopy(rng.choice([form, {"$ref": SREF + "Err"}]))}
+        elif k == "multipart":
+            content["multipart/form-data"] = {"schema": copy.deepcopy(rng.choice([multi, {"$ref": SREF + "Pet"}]))}
+        elif k == "octet":
+            content["application/octet-stream"] = {"schema": {"type": "string", "format": "binary"}}
+        else:
+            content["application/xml"] = {"schema": {"type": "string"}}    # unsupported: a warning in both documents
+    b = {"content": content}
+    if rng.random() < 0.5:
+        b["required"] = rng.random() < 0.7
+    if rng.random() < 0.4:
+        b["description"] = "the body"
+    return b
+
+
+def gen_response(rng, status):
+    r = rng.random()
+    resp = {"description": "response %s" % status}
+    if status == "204" or r < 0.15:
+        return resp
+    if r < 0.6:
+        sch = rng.choice([{"$ref": SREF + "Pet"}, {"type": "array", "items": {"$ref": SREF + "Tag"}}, {"$ref": SREF + "Err"}, {"type": "object", "properties": {"ok": {"type": "boolean"}}},
+                          {"oneOf": [{"$ref": SREF + "Pet"}, {"$ref": SREF + "Err"}]}, {"$ref": SREF + "Kind"}, {"type": "integer"}])
+        resp["content"] = {"application/json": {"schema": copy.deepcopy(sch)}}
+    elif r < 0.75:
+        resp["content"] = {"text/plain": {"schema": {"type": "string"}}}
+    elif r < 0.85:
+        resp["content"] = {"application/octet-stream": {"schema": {"type": "string", "format": "binary"}}}
+    elif r < 0.93:
+        resp["content"] = {"application/pdf": {"schema": {"type": "string"}}}     # unsupported: a warning either way
+    else:
+        resp["content"] = {"application/json": {}}
+    if rng.random() < 0.2:
+        resp["headers"] = {"X-Rate": {"schema": {"type": "integer"}}}
+    return resp
+
+
+def gen_ops_doc(rng, hostile=False):
+    """a document with every component written INLINE at its point of use"""
+    paths = {}
+    npaths = rng.randint(1, 4)
+    opn = 0
+    for pi_ in range(npaths):
+        path = "/r%d" % pi_
+        path_names = []
+        if rng.random() < 0.6:
+            path_names.append(rng.choice(["id", "pid"]))
+            path += "/{%s}" % path_names[-1]
+            if rng.random() < 0.3:
+                path_names.append("sub")
+                path += "/s/{sub}"
+        item = {}
+        # path-item level parameters
+        pl = []
+        level_for_path = {n: rng.choice(["item", "op", "both"]) for n in path_names}
+        for n in path_names:
+            if level_for_path[n] in ("item", "both"):
+                pl.append(gen_op_param(rng, "path", n))
+        for _ in range(rng.choice([0, 0, 1, 2])):
+            loc = rng.choice(["query", "header", "cookie"])
+            pl.append(gen_op_param(rng, loc, rng.choice(PNAMES[1:]), hostile))
+        pl = dedup_params(pl)
+        if pl or rng.random() < 0.2:
+            item["parameters"] = pl
+        for method in rng.sample(["get", "post", "put", "delete", "patch"], rng.randint(1, 2)):
+            opn += 1
+            op = {"operationId": "op%d%s" % (opn, method.capitalize()), "tags": [rng.choice(["alpha", "beta"])], "responses": {}}
+            ol = []
+            for n in path_names:
+                if level_for_path[n] in ("op", "both"):
+                    ol.append(gen_op_param(rng, "path", n))
+            for _ in range(rng.choice([0, 1, 2, 3])):
+                loc = rng.choice(["query", "query", "header", "cookie"])
+                ol.append(gen_op_param(rng, loc, rng.choice(PNAMES[1:]), hostile))
+            ol = dedup_params(ol)
+            if ol or rng.random() < 0.2:
+                op["parameters"] = ol
+            if method in ("post", "put", "patch") or rng.random() < 0.15:
+                op["requestBody"] = gen_body(rng)
+            for st in rng.sample(["200", "201", "204", "400", "404", "500"], rng.randint(1, 3)):
+                op["responses"][st] = gen_response(rng, st)
+            if rng.random() < 0.2:
+                op["summary"] = "summary %d" % opn
+            item[method] = op
+        paths[path] = item
+    return {"openapi": rng.choice(["3.0.3", "3.1.0"]), "info": {"title": "t", "version": "1"}, "paths": paths, "components": {"schemas": copy.deepcopy(BASE_SCHEMAS)}}
+
+
+def dedup_params(pl):
+    seen, out = set(), []
+    for p in pl:
+        if (p["name"], p["in"]) not in seen:
+            seen.add((p["name"], p["in"]))
+            out.append(p)
+    return out
+
+
+def positions(doc):
+    """every position where a parameter / request body / response component may stand: (kind, path, method|None, index|status)"""
+    out = []
+    for path, item in doc["paths"].items():
+        for i, _ in enumerate(item.get("parameters") or []):
+            out.append(("param", path, None, i))
+        for m, op in item.items():
+            if m == "parameters":
+                continue
+            for i, _ in enumerate(op.get("parameters") or []):
+                out.append(("param", path, m, i))
+            if "requestBody" in op:
+                out.append(("body", path, m, None))
+            for st in op.get("responses", {}):
+                out.append(("response", path, m, st))
+    return out
+
+
+COMP_KEYS = ["C%d", "Shared%d", "comp_%d", "c-%d", "x.%d", "K %d", "\u00dc%d"]
+
+
+def rewrite(doc, chosen, rng, chain_max=6, share=True):
+    """the same document with the components at the chosen positions moved to components/* and used by reference"""
+    d = copy.deepcopy(doc)
+    comps = d.setdefault("components", {})
+    counter = [0]
+    moved = {}
+
+    def fresh():
+        counter[0] += 1
+        return rng.choice(COMP_KEYS) % counter[0]
+
+    def move(section, obj):
+        key = (section, json.dumps(obj, sort_keys=True))
+        if share and key in moved and rng.random() < 0.7:
+            return moved[key]
+        name = fresh()
+        comps.setdefault(section, {})[name] = obj
+        moved[key] = name
+        return name
+
+    for pos in chosen:
+        kind, path, m, idx = pos
+        holder = d["paths"][path] if m is None else d["paths"][path][m]
+        if kind == "param":
+            name = move("parameters", holder["parameters"][idx])
+            holder["parameters"][idx] = {"$ref": "#/components/parameters/" + name}
+        elif kind == "response":
+            name = move("responses", holder["responses"][idx])
+            holder["responses"][idx] = {"$ref": "#/components/responses/" + name}
+        else:
+            name = move("requestBodies", holder["requestBody"])
+            k = rng.randint(0, chain_max - 1)
+            for _ in range(k):          # a chain of body references in front of the body
+                n2 = fresh()
+                comps["requestBodies"][n2] = {"$ref": "#/components/requestBodies/" + name}
+                name = n2
+            holder["requestBody"] = {"$ref": "#/components/requestBodies/" + name}
+    # declaration order of the component sections must not matter: shuffle them
+    for sec in ("parameters", "responses", "requestBodies"):
+        if sec in comps:
+            ks = list(comps[sec])
+            rng.shuffle(ks)
+            comps[sec] = {k: comps[sec][k] for k in ks}
+    return d
+
+
+def noschema_positions(doc, chosen):
+    """chosen parameter positions whose component has no `schema` (known finding param_ref_no_schema)"""
+    out = []
+    for kind, path, m, idx in chosen:
+        if kind == "param":
+            holder = doc["paths"][path] if m is None else doc["paths"][path][m]
+            if "schema" not in holder["parameters"][idx]:
+                out.append((kind, path, m, idx))
+    return out
+
+
+def same_but_orphans(expected, got):
+    """`got` is `expected` plus at most: orphan model modules (and their listing in models/__init__.py) and empty tag packages - what a dropped
+    endpoint / response leaves behind (the statement allows index files to list additional names)"""
+    for k, v in expected.items():
+        if k != "models/__init__.py" and got.get(k) != v:
+            return False
+    for k in got:
+        if k not in expected and not (k.startswith("models/") or re.fullmatch(r"api/[^/]+/__init__\.py", k)):
+            return False
+    return True
+
+
+def first_diff(fa, fb):
+    for k in sorted(set(fa) | set(fb)):
+        if fa.get(k) != fb.get(k):
+            return k
+    return None
+
+
+def work_meta(args):
+    """one inline document and `nrew` rewritings of it; returns plain data"""
+    seed, nrew, hostile = args
+    rng = random.Random(seed)
+    doc = gen_ops_doc(rng, hostile)
+    out = {"seed": seed, "doc": doc, "cases": [], "error": None}
+    try:
+        with impl.Gen(doc) as g0:
+            if g0.exc is not None:
+                out["error"] = "generate raised on the inline document: " + repr(g0.exc)
+                return out
+            f0, d0 = g0.files(), sorted(g0.diag())
+        pos = positions(doc)
+        for ri in range(nrew):
+            if not pos:
+                break
+            k = len(pos) if ri == 0 else rng.randint(1, len(pos))
+            chosen = rng.sample(pos, k)
+            d1 = rewrite(doc, chosen, rng)
+            with impl.Gen(d1) as g1:
+                case = {"positions": chosen, "n_positions": len(pos), "doc_ref": d1, "exc": repr(g1.exc) if g1.exc is not None else None}
+                f1, dg1 = g1.files(), sorted(g1.diag())
+            case["first_diff"] = first_diff(f0, f1)
+            case["endpoint_diff"] = bool(case["first_diff"]) and any(k.startswith("api/") and f0.get(k) != f1.get(k) for k in set(f0) | set(f1))
+            case["diag_same"] = [(a, b) for a, b, c in d0] == [(a, b) for a, b, c in dg1] and len(d0) == len(dg1)
+            case["diag_inline"], case["diag_ref"] = [list(x) for x in d0][:6], [list(x) for x in dg1][:6]
+            case["noschema"] = noschema_positions(doc, chosen)
+            if case["noschema"] and case["first_diff"] is not None:
+                # the finding explains exactly this: every operation that uses such a parameter by reference is dropped, nothing else changes
+                d2 = copy.deepcopy(doc)
+                for _, path, m, _ in case["noschema"]:
+                    for mm in ([m] if m is not None else [x for x in list(d2["paths"][path]) if x != "parameters"]):
+                        d2["paths"][path].pop(mm, None)
+                with impl.Gen(d2) as g2:
+                    f2 = g2.files()
+                case["noschema_explains"] = same_but_orphans(f2, f1)
+            case["n_endpoint_modules"] = sum(1 for k in f0 if k.startswith("api/") and not k.endswith("__init__.py"))
+            out["cases"].append(case)
+    except BaseException as e:  # noqa
+        import traceback
+        out["error"] = "harness worker: " + repr(e) + traceback.format_exc()[-800:]
+    return out
+
+
+def stage_c_meta(run, tier, replay_docs=None):
+    rng = run.rng
+    ndocs = 70 if tier == "quick" else 700
+    jobs = [(rng.randrange(1 << 30), 3 if tier == "quick" else 4, i % 8 == 7) for i in range(ndocs)]
+    with cf.ProcessPoolExecutor(max_workers=14) as ex:
+        results = list(ex.map(work_meta, jobs, chunksize=2))
+    for r in results:
+        if r["error"]:
+            run.violation("harness-or-generator", {"seed": r["seed"], "error": r["error"], "doc": r["doc"]})
+            continue
+        for c in r["cases"]:
+            kinds = sorted({p[0] for p in c["positions"]})
+            run.note_case({"doc_seed": r["seed"], "positions": c["positions"]}, nontrivial=c["n_endpoint_modules"] > 0, kind="rewrite:" + "+".join(kinds))
+            if c["exc"]:
+                run.violation("oracle", {"doc": r["doc"], "rewritten_positions": c["positions"], "doc_ref": c["doc_ref"], "note": "generation of the by-reference document raised " + c["exc"]})
+                continue
+            if c["first_diff"] is None and c["diag_same"]:
+                continue
+            if c["noschema"] and c.get("noschema_explains"):
+                if run.known_finding("param_ref_no_schema", "parameter without `schema` (described by `content`) at %s: written inline it is skipped silently, referenced from components/parameters "
+                                     "the endpoint is dropped (first differing file %s)" % (c["noschema"][0], c["first_diff"])):
+                    continue
+            run.violation("oracle", {"doc": r["doc"], "rewritten_positions": c["positions"], "doc_ref": c["doc_ref"], "first_differing_file": c["first_diff"], "endpoint_module_differs": c["endpoint_diff"],
+                                     "diagnostics_inline": c["diag_inline"], "diagnostics_by_reference": c["diag_ref"],
+                                     "note": "inline and by-reference documents generate different " + ("endpoint code" if c["endpoint_diff"] else "output (non-endpoint file or diagnostics)")})
+
+
+# ====================================================================================================================
+# stage C (3): malformed / dangling / remote / circular references at every position kind
+# ====================================================================================================================
+def _ok(schema=None, desc="ok"):
+    r = {"description": desc}
+    if schema is not None:
+        r["content"] = {"application/json": {"schema": schema}}
+    return r
+
+
+MAL_KINDS = ["param-op", "param-item", "body", "response", "param-schema", "body-schema", "response-schema", "property", "items", "union-member", "additional", "allof-member"]
+MAL_SECTION = {"param-op": "parameters", "param-item": "parameters", "body": "requestBodies", "response": "responses"}
+
+
+def malformed_docs(kind, ref):
+    """(document with `ref` at the position, document with the user of that position - and its dependants - deleted)"""
+    S = copy.deepcopy(BASE_SCHEMAS)
+    comps = {"schemas": S,
+             "parameters": {"Q": {"name": "q", "in": "query", "schema": {"type": "string"}}, "Pid": {"name": "id", "in": "path", "required": True, "schema": {"type": "integer"}}},
+             "requestBodies": {"B": {"content": {"application/json": {"schema": {"$ref": SREF + "Pet"}}}}},
+             "responses": {"R": _ok({"$ref": SREF + "Pet"})}}
+    R = {"$ref": ref}
+    paths = {
+        "/g": {"get": {"operationId": "unrelatedG", "tags": ["alpha"], "parameters": [{"$ref": "#/components/parameters/Q"}], "responses": {"200": {"$ref": "#/components/responses/R"}}},
+               "post": {"operationId": "unrelatedP", "tags": ["beta"], "requestBody": {"$ref": "#/components/requestBodies/B"}, "responses": {"200": _ok({"$ref": SREF + "Tag"})}}},
+    }
+    dele = None
+    if kind == "param-op":
+        paths["/a"] = {"get": {"operationId": "victim", "tags": ["alpha"], "parameters": [{"name": "z", "in": "query", "schema": {"type": "integer"}}, R], "responses": {"200": _ok({"$ref": SREF + "Err"})}},
+                       "put": {"operationId": "sibling", "tags": ["alpha"], "responses": {"200": _ok()}}}
+        dele = lambda d: d["paths"]["/a"].pop("get")
+    elif kind == "param-item":
+        paths["/a/{id}"] = {"parameters": [R], "get": {"operationId": "victim", "tags": ["alpha"], "parameters": [{"$ref": "#/components/parameters/Pid"}], "responses": {"200": _ok({"$ref": SREF + "Err"})}},
+                            "delete": {"operationId": "victim2", "tags": ["beta"], "parameters": [{"$ref": "#/components/parameters/Pid"}], "responses": {"204": _ok()}}}
+        dele = lambda d: d["paths"].pop("/a/{id}")
+    elif kind == "body":
+        paths["/a"] = {"post": {"operationId": "victim", "tags": ["alpha"], "requestBody": R, "responses": {"200": _ok({"$ref": SREF + "Err"})}}}
+        dele = lambda d: d["paths"].pop("/a")
+    elif kind == "response":
+        paths["/a"] = {"get": {"operationId": "victim", "tags": ["alpha"], "responses": {"200": R, "404": _ok({"$ref": SREF + "Err"}, "nf")}}}
+        dele = lambda d: d["paths"]["/a"]["get"]["responses"].pop("200")
+    elif kind == "param-schema":
+        paths["/a"] = {"get": {"operationId": "victim", "tags": ["alpha"], "parameters": [{"name": "k", "in": "query", "schema": R}], "responses": {"200": _ok()}}}
+        dele = lambda d: d["paths"].pop("/a")
+    elif kind == "body-schema":
+        paths["/a"] = {"post": {"operationId": "victim", "tags": ["alpha"], "requestBody": {"content": {"application/json": {"schema": R}}}, "responses": {"200": _ok()}}}
+        dele = lambda d: d["paths"].pop("/a")
+    elif kind == "response-schema":
+        paths["/a"] = {"get": {"operationId": "victim", "tags": ["alpha"], "responses": {"200": _ok(R), "404": _ok({"$ref": SREF + "Err"}, "nf")}}}
+        dele = lambda d: d["paths"]["/a"]["get"]["responses"].pop("200")
+    else:
+        holder = {"property": {"type": "object", "properties": {"h": R, "n": {"type": "integer"}}},
+                  "items": {"type": "object", "properties": {"l": {"type": "array", "items": R}}},
+                  "union-member": {"type": "object", "properties": {"u": {"anyOf": [R, {"type": "integer"}]}}},
+                  "additional": {"type": "object", "additionalProperties": R},
+                  "allof-member": {"allOf": [R, {"type": "object", "properties": {"extra": {"type": "string"}}}]}}[kind]
+        S["Holder"] = holder
+        S["User"] = {"type": "object", "properties": {"holder": {"$ref": SREF + "Holder"}, "w": {"type": "string"}}}      # a dependant of the holder
+        paths["/a"] = {"get": {"operationId": "victim", "tags": ["alpha"], "responses": {"200": _ok({"$ref": SREF + "Holder"}), "404": _ok({"$ref": SREF + "Err"}, "nf")}}}
+        paths["/u"] = {"get": {"operationId": "victimUser", "tags": ["beta"], "responses": {"200": _ok({"$ref": SREF + "User"}), "404": _ok({"$ref": SREF + "Err"}, "nf")}}}
+
+        def dele(d):
+            d["components"]["schemas"].pop("Holder")
+            d["components"]["schemas"].pop("User")
+            d["paths"]["/a"]["get"]["responses"].pop("200")
+            d["paths"]["/u"]["get"]["responses"].pop("200")
+    doc = {"openapi": "3.1.0", "info": {"title": "t", "version": "1"}, "paths": paths, "components": comps}
+    deleted = copy.deepcopy(doc)
+    dele(deleted)
+    return doc, deleted
+
+
+def mal_forms(kind):
+    sec = MAL_SECTION.get(kind, "schemas")
+    name = {"parameters": "Q", "requestBodies": "B", "responses": "R", "schemas": "Pet"}[sec]
+    forms = bad_ref_forms(sec, name)
+    if sec != "schemas":
+        forms.append(("circular", f"#/components/{sec}/Loop"))
+    elif kind == "allof-member":
+        forms.append(("self", "#/components/schemas/Holder"))     # (a self reference in a property / item position is legitimate recursion)
+    return sec, name, forms
+
+
+def work_mal_ref(kind):
+    """per position kind: output of the canonical-reference document and of the document without the item"""
+    sec, name, _ = mal_forms(kind)
+    good, deleted = malformed_docs(kind, f"#/components/{sec}/{name}")
+    with impl.Gen(deleted) as gd:
+        fd, dd = gd.files(), gd.diag()
+    with impl.Gen(good) as gg:
+        fg, dg = gg.files(), gg.diag()
+    return kind, (fd, dd, fg, dg)
+
+
+def work_mal(args):
+    kind, label, ref, (fd, dd, fg, dg) = args
+    out = {"kind": kind, "label": label, "ref": ref, "error": None}
+    try:
+        sec, name, _ = mal_forms(kind)
+        bad, deleted = malformed_docs(kind, ref)
+        if label == "circular":
+            bad["components"][sec]["Loop"] = {"$ref": f"#/components/{sec}/Loop2"}
+            bad["components"][sec]["Loop2"] = {"$ref": f"#/components/{sec}/Loop"}
+        out["doc"], out["doc_deleted"] = bad, deleted
+        with impl.Gen(bad) as gb:
+            fb, db, eb = gb.files(), gb.diag(), gb.exc
+        out["exc"] = repr(eb) if eb is not None else None
+        out["n_diag_bad"], out["n_diag_deleted"], out["n_diag_good"] = len(db), len(dd), len(dg)
+        out["diag_bad"] = [list(x) for x in db][:5]
+        out["contained"] = same_but_orphans(fd, fb)
+        out["first_diff_vs_deleted"] = next((k for k in sorted(set(fb) | set(fd)) if fb.get(k) != fd.get(k) and not (k.startswith("models/") and k not in fd) and k != "models/__init__.py"), None)
+        out["same_as_canonical"] = fb == fg and [(a, b) for a, b, c in db] == [(a, b) for a, b, c in dg]
+    except BaseException as e:  # noqa
+        import traceback
+        out["error"] = repr(e) + traceback.format_exc()[-600:]
+    return out
+
+
+def stage_c_malformed(run, tier):
+    with cf.ProcessPoolExecutor(max_workers=14) as ex:
+        base = dict(ex.map(work_mal_ref, MAL_KINDS))
+        jobs = []
+        for kind in MAL_KINDS:
+            _, _, forms = mal_forms(kind)
+            for label, ref in forms:
+                jobs.append((kind, label, ref, base[kind]))
+        results = list(ex.map(work_mal, jobs, chunksize=3))
+    # the model's verdict on each reference string (guards of the C20 theorems), evaluated inside Coq
+    gterms = []
+    for r in results:
+        c = cstr(r["ref"])
+        gterms += [f"g_no_authority {c}", f"g_body_ref_local {c}", f"g_single_segment {c}", f"match parse_reference_path {c} with PRCrash => false | _ => true end",
+                   f"match parse_reference_path {c} with PROk _ => true | _ => false end"]
+    false_idx = set(run_cases(HDR, gterms, shard=400))
+    for ri, r in enumerate(results):
+        g = {n: (ri * 5 + j) not in false_idx for j, n in enumerate(["no_authority", "body_local", "single_segment", "no_crash", "accepted"])}
+        case = {"position": r["kind"], "form": r["label"], "ref": r["ref"]}
+        run.note_case(case, nontrivial=True, kind="malformed:" + r["kind"])
+        if r["error"]:
+            run.violation("harness-or-generator", {**case, "error": r["error"]})
+            continue
+        payload = {**case, "doc": r["doc"], "doc_deleted": r["doc_deleted"], "diagnostics": r["diag_bad"], "first_differing_file": r["first_diff_vs_deleted"], "exception": r["exc"]}
+        if r["exc"] is not None:
+            if not g["no_crash"] and r["kind"] != "body" and run.known_finding("ref_urlparse_crash", f"$ref {r['ref']!r} at position {r['kind']}: {r['exc']} escapes generate() (the model's parse_reference_path = PRCrash)"):
+                continue
+            run.violation("oracle", {**payload, "note": "generation raised instead of reporting a diagnostic for the bad reference"})
+            continue
+        if r["contained"] and r["n_diag_bad"] > r["n_diag_deleted"]:
+            continue          # diagnostic for the user of the reference, everything else as if the item were not there
+        if r["same_as_canonical"]:
+            # the malformed reference resolved silently, exactly like the canonical one: which listed defect class is it?
+            fid = None
+            if r["kind"] == "body" and not g["body_local"]:
+                fid = "body_ref_prefix_ignored"
+            elif r["kind"] != "body" and g["accepted"] and not g["no_authority"]:
+                fid = "ref_netloc_ignored"
+            elif r["kind"] == "response" and g["accepted"] and not g["single_segment"]:
+                fid = "response_ref_segments_ignored"
+            if fid and run.known_finding(fid, f"$ref {r['ref']!r} ({r['label']}) at position {r['kind']} resolves silently to the local component (output identical to the canonical reference, no diagnostic)"):
+                continue
+        run.violation("oracle", {**payload, "guards": g, "note": "malformed reference: " + ("no diagnostic" if r["n_diag_bad"] <= r["n_diag_deleted"] else "diagnostic present but other modules differ from the document without the item")})
+
+
+def stage_b(run, tier):
+    terms, meta = [], []
+    for f in (stage_b_refstrings, stage_b_bodies, stage_b_params, stage_b_responses):
+        t, m = f(run, tier)
+        terms += t
+        meta += m
+    bad = run_cases(HDR, terms, shard=300)
+    run.corr = {"cases": len(terms), "mismatches": len(bad),
+                "what": "parse_reference_path / get_reference_simple_name, bodies._resolve_reference, build_parameters (table with ALL fields of every registered Parameter, error counts), "
+                        "Endpoint.from_data + add_parameters (per-location (name, required, schema) sequences or error class), response_from_data reference case == coq/Refs.v"}
+    for i in bad[:8]:
+        mv = coq_eval(HDR, terms[i].split(" && ")[0].replace("pref_eqb (", "(", 1) if meta[i]["fn"] == "parse_reference_path" else "0")
+        run.violation("correspondence", {**meta[i], "term": terms[i][:1500], "model": mv[-400:], "note": "the implementation no longer behaves like coq/Refs.v, about which the C20 theorems are proved"})
+    return bad
+
+
+def run(run, tier, replay=None):
+    if os.environ.get("C20_SKIP_B") != "1":
+        stage_b(run, tier)
+    stage_c_meta(run, tier)
+    stage_c_malformed(run, tier)
